@@ -18,7 +18,8 @@ Opts == {"none", "empty", "valid", "context", "noeq", "nonint", "b64good", "b64b
 Regexes == {"none", "default", "invert", "noop", "wrongprefix", "uncompilable", "noflag", "bogusflag",
             "flaglist_in", "flaglist_dn", "flaglist_ni", "flaglist_bdn"}   \* flag lists: invert,noop / default,noop / noop,invert / bogus,default,noop
 Queries == {"valid", "empty", "blank", "lonebackquote", "unknownkeyword", "truncated", "badlogformat", "unknownagg",
-            "orderkeyword1", "orderkeyword2", "orderkeyword3", "clausekeyword"}   \* a clause keyword directly followed by another keyword
+            "orderkeyword1", "orderkeyword2", "orderkeyword3", "clausekeyword",   \* a clause keyword directly followed by another keyword
+            "danglingwhere"}   \* a complete where condition followed by an incomplete one (one or two stray tokens)
 \* queries the parser accepts whose numbers sit on a boundary (they reach timers, limits and slices in the aggregator)
 BoundaryQueries == {"quotedbackquote", "quotedkeyword", "interval0", "intervalneg", "intervalhuge", "limit0", "limitneg", "rorderlimit1", "setclause", "manyselect"}
 Files == {"existing", "missing", "directory", "emptyglob"}
